@@ -21,6 +21,7 @@ CONSTANTS
     NW,          \* world reactors (0..2): systems NSys+NOnce+1..          [world_reactor.rs]
     NER,         \* entity world reactors (0..1): system NSys+NOnce+NW+1   [entity_world_reactor.rs]
     NEnt,        \* pre-spawned plain entities 1..NEnt
+    Hier,        \* entities 1..Hier form a parent chain (e + 1 is the child of e); 0 or 1 = no hierarchy   [bevy_hierarchy]
     NTy,         \* tag types per family (1 or 2)
     NVal,        \* component / resource values 1..NVal
     OpNames,     \* op alphabet of free bodies
@@ -89,7 +90,7 @@ WInit ==
       sysmode |-> [ s \in Sys |-> 0 ], regd |-> {}, onceUsed |-> 0,
       prog |-> [steps |-> <<>>, scripts |-> <<>>] ]
 
-CfgRec == [t |-> "cfg", nsys |-> NSys, nonce |-> NOnce, nent |-> NEnt, nworld |-> NW, neworld |-> NER,
+CfgRec == [t |-> "cfg", nsys |-> NSys, nonce |-> NOnce, nent |-> NEnt, nworld |-> NW, neworld |-> NER, hier |-> Hier,
            kinds |-> [ i \in 1..NSys |-> "plain" ]]
 
 ----------------------------------------------------------------------------
@@ -178,8 +179,16 @@ KillEntW(x, e) ==
                              !.trk = @ \ {e}, !.elocal[e] = 0, !.hasER = @ \ {e}]
          IN DecAll(x1, MapSeq(gone, LAMBDA y : y.h))
 
+(* despawn_recursive: the children listed by the entity first (depth-first), then the entity itself; a child that is   *)
+(* already gone is skipped together with whatever hung below it          [bevy_hierarchy: despawn_with_children_recursive] *)
+ChildOf(e) == IF e + 1 <= Hier /\ e + 1 <= NEnt THEN e + 1 ELSE 0
+RECURSIVE KillEntRecW(_, _)
+KillEntRecW(x, e) ==
+    IF e \notin x.aliveE THEN x
+    ELSE LET c == ChildOf(e) IN KillEntW(IF c # 0 THEN KillEntRecW(x, c) ELSE x, e)
+
 GcW(x) ==
-    LET res == GcLoop(x, KillEntW)
+    LET res == GcLoop(x, KillEntRecW)
         skip == "gc_skip" \in Mutants
     IN IF skip THEN [w |-> x, out |-> << [t |-> "gc", d |-> <<>>, closed |-> 1] >>]
        ELSE [w |-> res.w, out |-> << [t |-> "gc", d |-> res.d, closed |-> 1] >> \o res.drops]
@@ -357,6 +366,14 @@ OpEffect(x, op, ret) ==
             THEN [w |-> [x EXCEPT !.comp[<<op[2], op[3]>>] = 0, !.remLog[op[3]] = Append(@, [e |-> op[2], age |-> 0])], out |-> <<>>, q |-> <<>>]
             ELSE [w |-> x, out |-> <<>>, q |-> <<>>]
       [] n = "desp" -> [w |-> IF ret = 1 THEN KillEntW(x, op[2]) ELSE x, out |-> <<>>, q |-> <<>>]
+      [] n = "desprec" -> [w |-> IF ret = 1 THEN KillEntRecW(x, op[2]) ELSE x, out |-> <<>>, q |-> <<>>]
+      \* direct world access from a queued closure: the entity is looked up when the command is applied
+      [] n = "xdesp" -> [w |-> KillEntW(x, op[2]), out |-> <<>>, q |-> <<>>]
+      [] n = "xdesprec" -> [w |-> KillEntRecW(x, op[2]), out |-> <<>>, q |-> <<>>]
+      [] n = "xrm" ->
+            IF op[2] \in x.aliveE /\ x.comp[<<op[2], op[3]>>] # 0
+            THEN [w |-> [x EXCEPT !.comp[<<op[2], op[3]>>] = 0, !.remLog[op[3]] = Append(@, [e |-> op[2], age |-> 0])], out |-> <<>>, q |-> <<>>]
+            ELSE [w |-> x, out |-> <<>>, q |-> <<>>]
       [] n = "despsys" ->
             IF ret = 1 THEN LET r == KillSysW(x, op[2]) IN [w |-> r.w, out |-> r.out, q |-> <<>>]
             ELSE [w |-> x, out |-> <<>>, q |-> <<>>]
@@ -513,7 +530,8 @@ IssueW(x, op) ==
       [] n = "resset" ->
             LET cur == x.res[op[2]]
             IN IF cur # op[3] THEN [w |-> [x EXCEPT !.res[op[2]] = op[3]], ret |-> cur] ELSE [w |-> x, ret |-> -1]
-      [] n \in {"rm", "desp"} -> [w |-> x, ret |-> IF op[2] \in x.aliveE THEN 1 ELSE 0]
+      [] n \in {"rm", "desp", "desprec"} -> [w |-> x, ret |-> IF op[2] \in x.aliveE THEN 1 ELSE 0]
+      [] n \in {"xrm", "xdesp", "xdesprec"} -> [w |-> x, ret |-> 1]
       [] n = "despsys" -> [w |-> x, ret |-> IF op[2] \in x.alive THEN 1 ELSE 0]
       [] n = "reg" ->
             [w |-> [x EXCEPT !.tok = IF op[5] > 0 THEN Put(@, op[5], [s |-> op[3], b |-> op[4]]) ELSE @,
@@ -533,37 +551,42 @@ IssueW(x, op) ==
 
 (* the ops a free body may issue next; `go(op)` is the continuation *)
 EBundles(e) == { << <<"emut", e, 1>> >>, << <<"eev", e, 1>> >>, << <<"emut", e, 1>>, <<"eev", e, 1>> >> }
-FreeOp(x, cur, go(_)) ==
-    \/ "run" \in OpNames /\ \E s \in Targets(x) : go(<<"run", s>>)
-    \/ "sysev" \in OpNames /\ \E s \in Targets(x) : go(<<"sysev", s, x.nextP>>)
-    \/ "sysevsig" \in OpNames /\ \E s \in Targets(x), e \in Ents : go(<<"sysevsig", s, x.nextP, e>>)
-    \/ "bc" \in OpNames /\ \E t \in Tys : go(<<"bc", t, x.nextP>>)
-    \/ "eev" \in OpNames /\ \E e \in Ents, t \in Tys : go(<<"eev", e, t, x.nextP>>)
-    \/ "res" \in OpNames /\ \E t \in Tys : go(<<"res", t>>)
-    \/ "resmut" \in OpNames /\ \E t \in Tys, v \in 1..NVal : go(<<"resmut", t, v>>)
-    \/ "resset" \in OpNames /\ \E t \in Tys, v \in 1..NVal : go(<<"resset", t, v>>)
-    \/ "resno" \in OpNames /\ \E t \in Tys, v \in 1..NVal : go(<<"resno", t, v>>)
-    \/ "ins" \in OpNames /\ \E e \in Ents, t \in Tys, v \in 1..NVal : go(<<"ins", e, t, v>>)
-    \/ "mut" \in OpNames /\ \E e \in Ents, t \in Tys, v \in 1..NVal : go(<<"mut", e, t, v>>)
-    \/ "set" \in OpNames /\ \E e \in Ents, t \in Tys, v \in 1..NVal : go(<<"set", e, t, v>>)
-    \/ "noreact" \in OpNames /\ \E e \in Ents, t \in Tys, v \in 1..NVal : go(<<"noreact", e, t, v>>)
-    \/ "trig" \in OpNames /\ \E e \in Ents, t \in Tys : go(<<"trig", e, t>>)
-    \/ "rm" \in OpNames /\ \E e \in Ents, t \in Tys : go(<<"rm", e, t>>)
-    \/ "desp" \in OpNames /\ \E e \in Ents : go(<<"desp", e>>)
-    \/ "despsys" \in OpNames /\ \E s \in Targets(x) : go(<<"despsys", s>>)
-    \/ "reg" \in OpNames /\ \E md \in Modes, s \in 1..NSys, b \in Bundles :
+DirectOps == {"xrm", "xdesp", "xdesprec"}
+FreeOp(x, cur, OpNames_, go(_)) ==
+    \/ "run" \in OpNames_ /\ \E s \in Targets(x) : go(<<"run", s>>)
+    \/ "sysev" \in OpNames_ /\ \E s \in Targets(x) : go(<<"sysev", s, x.nextP>>)
+    \/ "sysevsig" \in OpNames_ /\ \E s \in Targets(x), e \in Ents : go(<<"sysevsig", s, x.nextP, e>>)
+    \/ "bc" \in OpNames_ /\ \E t \in Tys : go(<<"bc", t, x.nextP>>)
+    \/ "eev" \in OpNames_ /\ \E e \in Ents, t \in Tys : go(<<"eev", e, t, x.nextP>>)
+    \/ "res" \in OpNames_ /\ \E t \in Tys : go(<<"res", t>>)
+    \/ "resmut" \in OpNames_ /\ \E t \in Tys, v \in 1..NVal : go(<<"resmut", t, v>>)
+    \/ "resset" \in OpNames_ /\ \E t \in Tys, v \in 1..NVal : go(<<"resset", t, v>>)
+    \/ "resno" \in OpNames_ /\ \E t \in Tys, v \in 1..NVal : go(<<"resno", t, v>>)
+    \/ "ins" \in OpNames_ /\ \E e \in Ents, t \in Tys, v \in 1..NVal : go(<<"ins", e, t, v>>)
+    \/ "mut" \in OpNames_ /\ \E e \in Ents, t \in Tys, v \in 1..NVal : go(<<"mut", e, t, v>>)
+    \/ "set" \in OpNames_ /\ \E e \in Ents, t \in Tys, v \in 1..NVal : go(<<"set", e, t, v>>)
+    \/ "noreact" \in OpNames_ /\ \E e \in Ents, t \in Tys, v \in 1..NVal : go(<<"noreact", e, t, v>>)
+    \/ "trig" \in OpNames_ /\ \E e \in Ents, t \in Tys : go(<<"trig", e, t>>)
+    \/ "rm" \in OpNames_ /\ \E e \in Ents, t \in Tys : go(<<"rm", e, t>>)
+    \/ "desp" \in OpNames_ /\ \E e \in Ents : go(<<"desp", e>>)
+    \/ "desprec" \in OpNames_ /\ \E e \in Ents : go(<<"desprec", e>>)
+    \/ "xdesp" \in OpNames_ /\ \E e \in Ents : go(<<"xdesp", e>>)
+    \/ "xdesprec" \in OpNames_ /\ \E e \in Ents : go(<<"xdesprec", e>>)
+    \/ "xrm" \in OpNames_ /\ \E e \in Ents, t \in Tys : go(<<"xrm", e, t>>)
+    \/ "despsys" \in OpNames_ /\ \E s \in Targets(x) : go(<<"despsys", s>>)
+    \/ "reg" \in OpNames_ /\ \E md \in Modes, s \in 1..NSys, b \in Bundles :
             /\ x.sysmode[s] # 2 /\ ~(x.sysmode[s] = 1 /\ md # "persistent")
             /\ \A j \in DOMAIN b : <<s, b[j]>> \notin x.regd
             /\ go(<<"reg", md, s, b, IF md = "revokable" THEN x.nextTok ELSE 0>>)
-    \/ "once" \in OpNames /\ x.onceUsed < NOnce /\ \E b \in Bundles : go(<<"once", NSys + x.onceUsed + 1, b, x.nextTok>>)
-    \/ "revoke" \in OpNames /\ \E k \in DOMAIN x.tok : go(<<"revoke", k>>)
-    \/ "probe" \in OpNames /\ go(<<"probe">>)
-    \/ "wadd" \in OpNames /\ \E i \in 1..NW, b \in Bundles : (\A j \in DOMAIN b : <<WSysC(i), b[j]>> \notin x.regd) /\ Len(b) > 0 /\ go(<<"wadd", i, b>>)
-    \/ "wrem" \in OpNames /\ \E i \in 1..NW, b \in Bundles : Len(b) > 0 /\ go(<<"wrem", i, b>>)
-    \/ "wrun" \in OpNames /\ \E i \in 1..NW : go(<<"wrun", i>>)
-    \/ "eadd" \in OpNames /\ NER > 0 /\ cur # EWSysC /\ \E e \in Ents, v \in 1..NVal : go(<<"eadd", 1, e, v>>)
-    \/ "erem" \in OpNames /\ NER > 0 /\ cur # EWSysC /\ \E e \in Ents : \E b \in EBundles(e) : go(<<"erem", 1, b>>)
-    \/ "setlocal" \in OpNames /\ NER > 0 /\ cur = EWSysC /\ \E v \in 1..NVal : go(<<"setlocal", v>>)
+    \/ "once" \in OpNames_ /\ x.onceUsed < NOnce /\ \E b \in Bundles : go(<<"once", NSys + x.onceUsed + 1, b, x.nextTok>>)
+    \/ "revoke" \in OpNames_ /\ \E k \in DOMAIN x.tok : go(<<"revoke", k>>)
+    \/ "probe" \in OpNames_ /\ go(<<"probe">>)
+    \/ "wadd" \in OpNames_ /\ \E i \in 1..NW, b \in Bundles : (\A j \in DOMAIN b : <<WSysC(i), b[j]>> \notin x.regd) /\ Len(b) > 0 /\ go(<<"wadd", i, b>>)
+    \/ "wrem" \in OpNames_ /\ \E i \in 1..NW, b \in Bundles : Len(b) > 0 /\ go(<<"wrem", i, b>>)
+    \/ "wrun" \in OpNames_ /\ \E i \in 1..NW : go(<<"wrun", i>>)
+    \/ "eadd" \in OpNames_ /\ NER > 0 /\ cur # EWSysC /\ \E e \in Ents, v \in 1..NVal : go(<<"eadd", 1, e, v>>)
+    \/ "erem" \in OpNames_ /\ NER > 0 /\ cur # EWSysC /\ \E e \in Ents : \E b \in EBundles(e) : go(<<"erem", 1, b>>)
+    \/ "setlocal" \in OpNames_ /\ NER > 0 /\ cur = EWSysC /\ \E v \in 1..NVal : go(<<"setlocal", v>>)
 
 ScriptOf(r) == IF r <= Len(w.prog.scripts) THEN w.prog.scripts[r] ELSE [ops |-> <<>>, err |-> FALSE, notake |-> FALSE, take2 |-> FALSE]
 
@@ -604,7 +627,7 @@ RBodyEnd(x, fr, err) ==
 ----------------------------------------------------------------------------
 (* driver *)
 
-DFrame(ops) == [f |-> "d", ops |-> ops, issued |-> <<>>, pc |-> "issue", clear |-> FALSE, frame |-> FALSE]
+DFrame(ops) == [f |-> "d", ops |-> ops, issued |-> <<>>, pc |-> "issue", clear |-> FALSE, frame |-> FALSE, direct |-> FALSE]
 
 Quiesce(x) ==
     LET kinds == <<"bc", "res", "anyev", "ins", "mut", "rem", "eins", "emut", "erem", "eev", "desp">>
@@ -662,7 +685,7 @@ StepBody(fr) ==
               IN IF Len(fr.ops) < Len(sc.ops) THEN Emit(RBodyOp(w, fr, sc.ops[Len(fr.ops) + 1]))
                  ELSE Emit(RBodyEnd(w, fr, sc.err))
          ELSE \/ /\ Len(fr.ops) < BodyOps /\ w.budget > 0
-                 /\ FreeOp(w, fr.s, LAMBDA op : Emit(RBodyOp(w, fr, op)))
+                 /\ FreeOp(w, fr.s, OpNames, LAMBDA op : Emit(RBodyOp(w, fr, op)))
               \/ \E err \in (IF "err" \in Features THEN {FALSE, TRUE} ELSE {FALSE}) : Emit(RBodyEnd(w, fr, err))
 
 StepR(fr) ==
@@ -688,7 +711,7 @@ StepD(fr) ==
                  IN Emit([w |-> PushF(SetTopF(w, [fr EXCEPT !.pc = "wait"]), QFrame(items, <<>>)), out |-> <<>>])
       [] fr.pc = "free" ->
             \/ /\ Len(fr.issued) < MaxOps /\ w.budget > 0
-               /\ FreeOp(w, 0, LAMBDA op : LET is == IssueW(w, op) IN
+               /\ FreeOp(w, 0, IF fr.direct THEN OpNames \cap DirectOps ELSE OpNames, LAMBDA op : LET is == IssueW(w, op) IN
                        Emit([w |-> SetTopF([is.w EXCEPT !.budget = @ - 1], [fr EXCEPT !.issued = Append(@, [op |-> op, ret |-> is.ret])]),
                              out |-> << IssueRec(-w.step, Len(fr.issued) + 1, op, is.ret) >>]))
             \/ /\ Len(fr.issued) > 0
@@ -708,6 +731,8 @@ StepIdle ==
                 x == [w EXCEPT !.step = @ + 1]
             IN CASE st.kind = "ops" -> Emit([w |-> PushF(x, DFrame(st.ops)), out |-> << DrvRec(x, "ops") >>])
                  [] st.kind = "frame" -> Emit([w |-> PushF(x, [DFrame(st.ops) EXCEPT !.frame = TRUE]), out |-> << DrvRec(x, "frame") >>])
+                 \* direct world access between trees (no command queue, no flush): the ops take effect one after the other
+                 [] st.kind = "direct" -> Emit([w |-> PushF(x, DFrame(st.ops)), out |-> << DrvRec(x, "direct") >>])
                  [] st.kind = "gc" -> LET g == GcW(x) IN Emit([w |-> PushF(g.w, [DFrame(<<>>) EXCEPT !.pc = "wait"]), out |-> << DrvRec(x, "gc") >> \o g.out])
                  [] st.kind = "poll" -> LET p == PollOnly(PushF(x, [DFrame(<<>>) EXCEPT !.pc = "wait"]), << DrvRec(x, "poll") >>) IN Emit(p)
                  [] st.kind = "clear" -> LET p == GcPoll(PushF(x, [DFrame(<<>>) EXCEPT !.pc = "wait", !.clear = TRUE]), << DrvRec(x, "clear") >>) IN Emit(p)
@@ -722,6 +747,8 @@ StepIdle ==
                       [] OTHER -> Emit(GcPoll(PushF(xf, [DFrame(<<>>) EXCEPT !.pc = "wait", !.clear = TRUE]), << DrvRec(xf, "clear") >>))
                ELSE \/ "ops" \in StepKinds /\ w.budget > 0 /\ Emit([w |-> PushF(x, [DFrame(<<>>) EXCEPT !.pc = "free"]), out |-> << DrvRec(x, "ops") >>])
                     \/ "frame" \in StepKinds /\ w.budget > 0 /\ Emit([w |-> PushF(x, [DFrame(<<>>) EXCEPT !.pc = "free", !.frame = TRUE]), out |-> << DrvRec(x, "frame") >>])
+                    \/ "direct" \in StepKinds /\ w.budget > 0 /\ OpNames \cap DirectOps # {}
+                         /\ Emit([w |-> PushF(x, [DFrame(<<>>) EXCEPT !.pc = "free", !.direct = TRUE]), out |-> << DrvRec(x, "direct") >>])
                     \/ "gc" \in StepKinds /\ LET g == GcW(x) IN Emit([w |-> PushF(g.w, [DFrame(<<>>) EXCEPT !.pc = "wait"]), out |-> << DrvRec(x, "gc") >> \o g.out])
                     \/ "poll" \in StepKinds /\ Emit(PollOnly(PushF(x, [DFrame(<<>>) EXCEPT !.pc = "wait"]), << DrvRec(x, "poll") >>))
                     \/ "clear" \in StepKinds /\ Emit(GcPoll(PushF(x, [DFrame(<<>>) EXCEPT !.pc = "wait", !.clear = TRUE]), << DrvRec(x, "clear") >>))
